@@ -44,7 +44,7 @@ def gen_plan(rng, idx, fault_population=False):
         stems = rng.sample(pool_named, nfiles)
     elif style == 'dotted':
         # dots inside the name: 'sec2.1' must become 'sec2.1.tex'
-        pre = rng.choice(['sec', 'part.', 'v1.', 'ch'])
+        pre = rng.choice(['sec', 'part.', 'v1.', 'ch', 'Kap-ä_', 'A.TEX.', 'x.tex.'])
         stems = [pre + '%d.%s' % (i // 2 + 1, 'ab'[i % 2]) if rng.random() < 0.5
                  else pre + '2.%d' % i for i in range(nfiles)]
         if len(set(stems)) < nfiles:
